@@ -105,10 +105,14 @@ def resolve(rel, func, cls):
 def main():
     req = json.load(sys.stdin)
     out = []
+    sys.stdout = sys.stderr          # the repository prints (NoCythonWarn, debug prints in integral): keep stdout clean for the JSON
     for call in req['calls']:
         try:
             if call.get('compiled_standin'):
                 inject_extracted()
+            else:
+                for k_ in [m for m in sys.modules if m.startswith('pyspike.cython.cython_')]:
+                    del sys.modules[k_]
             f = resolve(call['rel'], call['func'], call.get('cls'))
             args = [dec(a) for a in call['args']]
             before = json.dumps([enc(a) for a in args], sort_keys=True)
@@ -121,7 +125,7 @@ def main():
             out.append(res)
         except BaseException as ex:  # noqa
             out.append({'ok': False, 'exc': type(ex).__name__, 'msg': str(ex)[:300]})
-    json.dump(out, sys.stdout)
+    json.dump(out, sys.__stdout__)
 
 
 if __name__ == '__main__':
